@@ -89,7 +89,7 @@ THEOREMS = {
     "C19": _gt("errEnum_eq") + [("Eav.Props.C19", "Eav.Props.C19." + n) for n in
             ("idn_failure_rejected", "idn_failure_verdict", "idn_failure_contained")] + [("Eav.Props.C13", "Eav.Props.C13.isEmail_outcome")],
     "C20": _gt("init_values") + [("Eav.Props.C20", "Eav.Props.C20." + n) for n in
-            ("getlines_flatten", "getlinesAux_records", "sanitize_clean", "echo_unchanged", "trim_plain", "verdicts_le_lines")],
+            ("getlines_flatten", "getlinesAux_records", "sanitize_clean", "echo_unchanged", "trim_plain", "verdicts_le_lines", "getlinesAux_append_lf", "cliLines_append_lf")],
 }
 
 TRUSTED = [
